@@ -1,2 +1,2 @@
-import Tumfl.Props.C11
-#print axioms Tumfl.Props.C11_roundtrip
+import Tumfl.Props.C16
+#print axioms Tumfl.Props.C16_positions
